@@ -72,6 +72,17 @@ def builtin_geometry(ctx: Ctx) -> None:
             mesh.write(path)
             with open(path, encoding="utf-8") as f:
                 parsed = bmd.parse_blockmeshdict(f.read())
+            if rng.random() < 0.5:
+                # written once; then moved again, the mesh cleared and written a second time: the geometry follows the shape
+                d2 = [rng.uniform(-4, 4) for _ in range(3)]
+                shape.translate(d2)
+                centre = vadd(centre, d2)
+                steps = steps + ["write", "translate", "clear"]
+                mesh.clear()
+                os.remove(path)
+                mesh.write(path)
+                with open(path, encoding="utf-8") as f:
+                    parsed = bmd.parse_blockmeshdict(f.read())
         except Exception as err:  # pylint: disable=broad-except
             ctx.violation(f"builtin-geometry:{kind}:raises:{type(err).__name__}", f"{kind} after {steps} could not be written: {err}", {"steps": steps})
             continue
